@@ -8,6 +8,12 @@ TRUST = ["Eigen dense self-adjoint eigen-solver, LU and MatrixFunctions::exp use
          "held on the executions observed only; nothing is claimed for inputs/schedules that were not run"]
 
 VH = {
+    "C01": dict(drivers=[dict(driver="gfdef", flavours=P2, timeout=60)],
+                floor=dict(quick=40, thorough=400),
+                rule="cases = generated model x partition (default / every 3rd: symmetries ignored) x {real,complex}; per case all (N<=4) or sampled index pairs x 12 Matsubara numbers "
+                     "(-3..3, +-50, -51, +-1000) through stand-alone GreensFunction, GFContainer and the complex-argument overload; oracle = full-space Lehmann sum of an independent ED, "
+                     "cross-checked against the two-block matrix-exponential integral for N<=4(5); tolerance = dropped residues <=1e-8 / distance + pole-merge and like-term allowances "
+                     "computed in the library's eigenbasis; non-trivial = H has off-diagonal elements and dim>=4; distinct by canonical model description + partition"),
     "C03": dict(drivers=[dict(driver="ham", flavours=P2, timeout=30)],
                 floor=dict(quick=60, thorough=600),
                 rule="cases = generated (lattice, terms, parameter class, partition mode[, custom integrals of motion]) x {real,complex build}; "
@@ -19,6 +25,10 @@ HOOK_COMMITS = []
 NOT_YET = {}
 
 INFO = {
+    "C01": dict(technique="runtime oracle monitor: returned G_ij(i w_n) vs definition integral (independent full ED Lehmann + Van Loan block exponential) on generated models",
+                level_text="Every value returned by the stand-alone object, the container and both call overloads is compared with the definition on generated models incl. degenerate, near-degenerate, S_z- and N-breaking ones, in real and complex builds, with a per-run tolerance that allows exactly the documented reductions; held on what was run.",
+                level_note="Trusts Eigen (eigen-solver, expm) and the harness's Jordan-Wigner construction; N <= 5 quick / 7 thorough; Matsubara axis only (off-axis z in C11).",
+                design_ref="DESIGN.md section 3, C01"),
     "C03": dict(technique="runtime differential monitor: library block ED vs dense Jordan-Wigner full-space ED on generated models/partitions",
                 level_text="Every reported eigenpair, block matrix, ground energy and look-up of the real library is compared with an independent dense full-space diagonalisation on hundreds (quick) / thousands (thorough) of generated models x partitions x {real,complex}; held on what was run, not a proof.",
                 level_note="Trusts Eigen's dense eigen-solver and the harness's 50-line Jordan-Wigner construction; model size N <= 6 (quick) / 8 (thorough).",
